@@ -9,8 +9,16 @@ for pid in ids:
     if not os.path.exists(p):
         na.append({"property_id": pid, "reason": "check not built yet in this tree (planned in DESIGN.md section 4); not a statement that the technique cannot apply"})
         continue
-    spec = importlib.util.spec_from_file_location("p", p)
-    m = importlib.util.module_from_spec(spec); spec.loader.exec_module(m)
+    try:
+        spec = importlib.util.spec_from_file_location("p", p)
+        m = importlib.util.module_from_spec(spec); spec.loader.exec_module(m)
+        for a in ("LEVEL_TEXT", "LEVEL_NOTE", "TECHNIQUE", "GO_PKG", "HARNESS", "GO_TEST"):
+            getattr(m, a)
+        if not (os.path.exists(os.path.join(ROOT, "coq", "Props", pid + ".v")) and os.path.exists(os.path.join(ROOT, "evidence", pid + ".json"))):
+            raise RuntimeError("incomplete")
+    except Exception as ex:
+        na.append({"property_id": pid, "reason": "check still under construction in this tree (%s); planned in DESIGN.md section 4" % type(ex).__name__})
+        continue
     checks.append({
         "property_id": pid,
         "quick_cmd": "./check %s --tier quick" % pid,
